@@ -86,6 +86,10 @@ def _remap_block(blk, lo, bo, upmap, sl):
         t["place"] = _remap_place(t["place"], lo, upmap, sl)
     elif k == "assert":
         t["cond"] = _remap_operand(t["cond"], lo, upmap, sl)
+        if "msg" in t:
+            # the message is the Debug rendering of rustc's AssertKind and names locals (`index: copy _7`): renumber them too
+            import re as _re
+            t["msg"] = _re.sub(r"\b_(\d+)\b", lambda m_: "_%d" % (int(m_.group(1)) + lo), t["msg"])
     nb["term"] = t
     return nb
 
